@@ -11,6 +11,12 @@ type ssaFn = ssa.Function
 
 func debugDump(w *World, what string, args []string) {
 	switch what {
+	case "contracts":
+		debugContracts(w, args)
+	case "bounds":
+		debugBounds(w, args)
+	case "c02inv":
+		debugC02Inventory(w)
 	case "funcs":
 		var names []string
 		for n := range w.funcs {
